@@ -99,6 +99,9 @@ def gate_table(rng):
     for kind in ("kdmv", "cowd", "sesparse"):
         add((f"vmdk.{kind}.magic", [("bit", b) for b in range(64 if kind == "sesparse" else 32)]))
         add((f"vmdk.{kind}.magic-via-descriptor", [("bit", b) for b in range(0, 32, 3)]))
+    # stream-optimized extents carry a second header (the footer) that replaces the first: its magic is validated too
+    add(("vmdk.stream.footer-magic", [("bit", b) for b in range(32)]))
+    add(("vmdk.stream.footer-magic-via-list", [("bit", b) for b in range(0, 32, 3)]))
     add(("hyperv.header-signature", [("bit", b) for b in range(32)]))
     add(("hyperv.active-header-signature-only", [(w, b) for w in (1, 2, "tie") for b in range(32)]))
     add(("hyperv.version", version_values(rng, {0x400})))
@@ -290,6 +293,13 @@ def _apply(gate: str, value, control: bool, ctx, rng):
         from dissect.hypervisor.disk.vmdk import VMDK, SparseDisk
 
         kind, _, how = what.partition(".")
+        if kind == "stream":
+            raw = bytearray(inps["vmdk-stream"].raw)
+            if not control:
+                _flip(raw, len(raw) - 1024, value[1])
+            if how == "footer-magic":
+                return call(lambda: SparseDisk(io.BytesIO(bytes(raw))).read_sectors(0, 1))
+            return call(lambda: VMDK([io.BytesIO(bytes(raw))]).read(512))
         src = {"kdmv": "vmdk-hosted", "cowd": "vmdk-cowd", "sesparse": "vmdk-sesparse"}[kind]
         raw = bytearray(inps[src].raw)
         if not control:
